@@ -166,6 +166,11 @@ func renderVal(ex *absint.Exec, st *absint.State, v absint.Val, b builtArgs, l r
 					leaf.Path = append(leaf.Path, absint.Step{Field: f})
 				}
 				if t, ok := st.Resolve(ex.LoadLeaf(st, leaf)).(*sym.Term); ok && t != nil {
+					if t.Sort != l.sort {
+						// the layer cannot express the content as a ring element (e.g. limbs held in a representation it
+						// reads as an opaque aggregate): the value is not compared for this result
+						return "fresh-ring(?)"
+					}
 					return "fresh-ring(" + sym.Canon(st.Simplify(t)).String() + ")"
 				}
 			}
@@ -296,6 +301,9 @@ func validateModel(c *Ctx, rule string, prog *load.Program, lower, upper ringLay
 		return false
 	}
 	for i := range a {
+		if a[i] != b[i] && (strings.Contains(a[i], "fresh-ring(?)") || strings.Contains(b[i], "fresh-ring(?)")) {
+			a[i], b[i] = stripFreshValues(a[i]), stripFreshValues(b[i])
+		}
 		if a[i] != b[i] {
 			c.R.Fail(rule, key, pos, fmt.Sprintf("code computes {%s} but the specification used by the upper layers says {%s}", a[i], b[i]))
 			return false
@@ -303,4 +311,30 @@ func validateModel(c *Ctx, rule string, prog *load.Program, lower, upper ringLay
 	}
 	c.R.OK(rule, key, pos, strings.Join(a, "; "))
 	return true
+}
+
+// stripFreshValues replaces every "fresh-ring(<balanced text>)" by "fresh-ring".
+func stripFreshValues(s string) string {
+	const tag = "fresh-ring("
+	var b strings.Builder
+	for {
+		i := strings.Index(s, tag)
+		if i < 0 {
+			b.WriteString(s)
+			return b.String()
+		}
+		b.WriteString(s[:i])
+		b.WriteString("fresh-ring")
+		depth, j := 1, i+len(tag)
+		for j < len(s) && depth > 0 {
+			switch s[j] {
+			case '(':
+				depth++
+			case ')':
+				depth--
+			}
+			j++
+		}
+		s = s[j:]
+	}
 }
